@@ -260,7 +260,11 @@ Theorem C16_preview_is_accept_key : forall ceq s,
 Proof. exact enter_preview. Qed.
 Print Assumptions C16_preview_is_accept_key.
 
-(* The preview and the landing position of accept are functions of exactly
+(* (A fact about the STRUCTURE of the model - [preview] and [accept_search]
+   read only these record fields - that becomes a fact about the code only
+   through the correspondence runs, which observe the displayed document after
+   every key, direction switches included.)
+   The preview and the landing position of accept are functions of exactly
    the same inputs - main buffer (working lines, index, cursor), search-field
    text, direction, ignore-case (and whether a search is active): two sessions
    that agree on these show the same document and accept to the same place,
@@ -306,7 +310,8 @@ Print Assumptions C16_preview_is_accept_empty_field_refuted.
    inserted at its cursor, Backspace (that does not abort), Delete, Left,
    Right, Home, End - changes neither text nor cursor nor working index of the
    main buffer, nor the stored search state; so does every sequence of such
-   keys (emacs mode; in Vi mode Backspace on an empty field is "abort"). *)
+   keys - in emacs mode any sequence, in Vi mode any sequence without Backspace
+   (Backspace on an empty Vi search field is "abort": C16_vi_backspace_abort). *)
 Theorem C16_typing_pure : forall ceq s k s',
   searching s = true -> typing_key k ->
   (vi s = false \/ k <> KBackspace \/ field s <> []) ->
@@ -316,9 +321,9 @@ Proof. exact typing_pure. Qed.
 Print Assumptions C16_typing_pure.
 
 Theorem C16_typing_pure_seq : forall ceq ks s s',
-  searching s = true -> vi s = false -> Forall typing_key ks ->
+  searching s = true -> (vi s = false \/ ~ In KBackspace ks) -> Forall typing_key ks ->
   keys_run ceq s ks = Some s' ->
-  main s' = main s /\ searching s' = true /\ ss_text s' = ss_text s /\ ss_dir s' = ss_dir s /\ vi s' = false.
+  main s' = main s /\ searching s' = true /\ ss_text s' = ss_text s /\ ss_dir s' = ss_dir s /\ vi s' = vi s.
 Proof. exact typing_pure_seq. Qed.
 Print Assumptions C16_typing_pure_seq.
 
@@ -349,6 +354,49 @@ Theorem C16_start_typing_abort : forall ceq s k0 ks s1 s2 s3,
   main s3 = main s /\ searching s3 = false.
 Proof. exact start_typing_abort. Qed.
 Print Assumptions C16_start_typing_abort.
+
+(* The Vi counterparts: Backspace on an empty search field aborts; a Vi session
+   that starts ('/' or '?'), edits the field without Backspace and aborts
+   leaves the main buffer as before, up to the end-of-line cursor rule applied
+   on returning to navigation mode. *)
+Theorem C16_vi_backspace_abort : forall ceq s s',
+  searching s = true -> vi s = true -> field s = [] -> key_step ceq s KBackspace = Some s' ->
+  searching s' = false /\ main s' = fix_vi (main s).
+Proof. exact vi_backspace_abort. Qed.
+Print Assumptions C16_vi_backspace_abort.
+
+Theorem C16_start_typing_abort_vi : forall ceq s k0 ks s1 s2 s3,
+  searching s = false -> vi s = true -> (k0 = KSlash \/ k0 = KQuestion) ->
+  key_step ceq s k0 = Some s1 -> Forall typing_key ks -> ~ In KBackspace ks ->
+  keys_run ceq s1 ks = Some s2 -> key_step ceq s2 KCg = Some s3 ->
+  main s3 = fix_vi (main s) /\ searching s3 = false.
+Proof. exact start_typing_abort_vi. Qed.
+Print Assumptions C16_start_typing_abort_vi.
+
+(* Next / previous while searching (C-r, C-s; in emacs mode also Up, Down) are
+   do_incremental_search: when the key's direction differs from the stored
+   one the search is only turned around; otherwise the main buffer becomes
+   apply_search(include_current_position=False, count=1) for the field text
+   in that direction - so C16_real, C16_no_skip_fwd/bwd, C16_complete_*
+   apply with st := mkss (field s) dir (ign s).  Vi n / N likewise with the
+   stored state resp. its inversion and the typed count. *)
+Theorem C16_next_is_search : forall ceq s k dir s',
+  searching s = true -> nav_dir k = Some dir -> (vi s = true -> k = KCr \/ k = KCs) ->
+  key_step ceq s k = Some s' ->
+  searching s' = true /\ ss_text s' = field s /\ ss_dir s' = dir /\ field s' = field s /\
+  main s' = (if ss_dir s =? dir then apply_search ceq (main s) (mkss (field s) dir (ign s)) false 1
+             else main s).
+Proof. exact next_is_search. Qed.
+Print Assumptions C16_next_is_search.
+
+Theorem C16_n_is_search : forall ceq s k c s',
+  vi s = true -> searching s = false -> (k = Kn c \/ k = KN c) ->
+  key_step ceq s k = Some s' ->
+  let st := match k with Kn _ => the_state s | _ => invert (the_state s) end in
+  main s' = fix_vi (apply_search ceq (main s) st false c) /\
+  ss_text s' = ss_text s /\ ss_dir s' = ss_dir s /\ searching s' = false.
+Proof. exact n_is_search. Qed.
+Print Assumptions C16_n_is_search.
 
 (* ... but abort does not undo the moves that C-r / C-s pressed again during
    the session made (the docstring of abort_search promises "restore the
@@ -384,7 +432,11 @@ Theorem C16_star_lands : forall ceq s c w,
 Proof. exact star_lands. Qed.
 Print Assumptions C16_star_lands.
 
-(* Two BufferControls sharing one search field (one SearchState): whatever
+(* (Model-structure facts: [key_step2] is DEFINED to copy [other] and
+   [preview_other] is DEFINED as the other buffer's document; what ties these
+   definitions to the code is the kind-4 correspondence run on a hand-built
+   two-control Application, not these two lemmas.)
+   Two BufferControls sharing one search field (one SearchState): whatever
    search key is pressed, the buffer of the control that is not being searched
    and the document it displays stay as they are; moving the focus (possible
    only while not searching) swaps the roles and carries the shared search
